@@ -228,7 +228,7 @@ class C18(SolveProperty):
     max_n = 7
     rule = ("random and structured frameworks up to 7 arguments (mostly connected), all solver/encoder configurations and entry points; the counting factory's "
             "number of solve calls is compared with the Lean program's on the same replies and with the bound computed from the reference counts of the "
-            "base semantics per component (PR <= |base|+|PR|+1, ID <= 2|base|+|PR|+2, SST/STG <= (n+2)|base|+3, CO/ST <= 2); within one preferred-semantics query no solver object "
+            "base semantics per component (PR <= |base|+|PR|+1, ID <= 2|base|+|PR|+2, SST/STG <= (n+2)|base|+3, CO/ST <= 2); within one preferred- or ideal-semantics query no solver object "
             "returns the same model twice (no candidate set examined twice); runs are cut at 20000 calls, "
             "which is how a non-terminating change is reported instead of hanging the check")
     assumptions = SolveProperty.assumptions + ["bounds are evaluated per component and summed over the components a query may touch"]
@@ -347,10 +347,10 @@ class C18(SolveProperty):
         if any("CALLCAP" in l for l in impl):
             fs.append(Finding("input", case_line, "more than 20000 SAT calls: the query does not terminate within any reasonable bound", entry + " · call cap exceeded"))
             return fs
-        if p.get("sem") == "PR":
+        if p.get("sem") in ("PR", "ID"):
             dup = self.repeated_model(impl)
             if dup:
-                fs.append(Finding("input", case_line, "a candidate set was examined twice: SAT solver %s returned the same model twice within one preferred-semantics query" % dup[0],
+                fs.append(Finding("input", case_line, "a candidate set was examined twice: SAT solver %s returned the same model twice within one preferred / ideal query" % dup[0],
                                   entry + " · candidate examined twice", {"model": dup[1][:80]}))
         if calls and cl:
             counts = [tuple(int(x) for x in c.split(",")) for c in cl[0][7:].split(";") if c]
